@@ -1,4 +1,4 @@
-import AranyaV.Proofs.CompileMatch
+import AranyaV.Proofs.CompileSub
 /-!
 C22: the code-at-pc simulation, by induction on the evaluator's fuel.
 -/
@@ -344,7 +344,7 @@ theorem exprSim_succ {n : Nat} (hP : ProgOk S) (ihE : ExprSim S n) (ihA : ArgsSi
   | struct name fields srcs => exact sim_struct S ihF name fields srcs env log wp c junk base fr K hsup hcode hdefs
   | mtch scrut arms => exact sim_match S ihE ihSel scrut arms env log wp c junk base fr K hsup hcode hdefs
   | block ss e => exact sim_block S ihE ihSs ss e env log wp c junk base fr K hsup hcode hdefs
-  | _ => simp [supE] at hsup
+  | substruct e sub => exact sim_substruct S hP ihE e sub env log wp c junk base fr K hsup hcode hdefs
 
 theorem sim_all (hP : ProgOk S) : ∀ n, AllSim S n
   | 0 => sim_zero S
